@@ -59,12 +59,17 @@ def parseSched (s : String) : List Nat := s.toList.map fun c => c.toNat - 48
 def hasOther (es : List Entry) : Bool := es.any fun e => e.payload.any fun (_, v) => match v with | .other => true | _ => false
 
 /-- values whose treatment by the JSON → message library is not recorded in the model: numeric-looking texts that are
-not canonical literals (`05`, `+5`) -/
-def hasOddNumeric (es : List Entry) : Bool := es.any fun e => e.payload.any fun (_, v) =>
-  match v with
-  | .s t => oddNumeric t
-  | .n t => oddNumeric t
-  | _ => false
+not canonical literals (`05`, `+5`) given to an int64 field (or as a bare JSON number) -/
+def hasOddNumeric (es : List Entry) : Bool := es.any fun e =>
+  let fs := ((lookupMethod e.call).map (·.2)).getD []
+  e.payload.any fun (k, v) =>
+    let isInt := match findField fs k with
+      | some f => f.kind == FKind.i64
+      | none => false
+    match v with
+    | .s t => isInt && oddNumeric t
+    | .n t => oddNumeric t
+    | _ => false
 
 def hasDup (l : List String) : Bool :=
   match l with
@@ -88,6 +93,8 @@ def inconclusive (impl : String) : Bool := (impl.splitOn "|dl?").length > 1
 def handle : Handler := fun input impl =>
   let kv := parseKV input
   if inconclusive impl then ("-", "skip:inconclusive-deadline") else
+  -- the in-process server could not be started (no free port on a busy machine): nothing was observed
+  if impl.startsWith "ENV" then ("-", "skip:environment") else
   match getS kv "mode" with
   | "table" => (tableText, if impl == tableText then "ok" else "fail:method-table:the reflected method table differs from the model's")
   | "json" =>
